@@ -348,6 +348,10 @@ class QvmCpu:
         except ZeroDivisionError:
             self.trapped_addr = self.prev_pc
             self._trap(TrapCode.DIVISION_BY_ZERO)
+        except OverflowError as e:
+            self.trapped_addr = self.prev_pc
+            self._trap(TrapCode.INVALID_CELL_VALUE,
+                       type='numeric', value=str(e))
 
         if not self.halted and self.pc >= len(self.module.code):
             logger.info(
